@@ -893,6 +893,81 @@ def t_opt_peek(facts, res, tier):
             for p in walk(n["e"]):
                 if p in peeks:
                     owners.setdefault(id(p), "match")
+    # (cursor) a look-ahead starts at the line after `second`: the first peek of a chain is reached only with the multipeek
+    # cursor reset - every earlier peek of the same iteration is followed, unconditionally, by reset_peek() or next()
+    par = {}
+
+    def _rec(n, pp, key, idx):
+        if isinstance(n, dict):
+            par[id(n)] = (pp, key, idx)
+            for k2, v in n.items():
+                if k2 in ("loc", "pat"):
+                    continue
+                if isinstance(v, dict):
+                    _rec(v, n, k2, None)
+                elif isinstance(v, list):
+                    for j, x in enumerate(v):
+                        if isinstance(x, dict):
+                            _rec(x, n, k2, j)
+    _rec(fn["body"], None, None, None)
+
+    def _resets(st):
+        e = st
+        while isinstance(e, dict) and e.get("k") in ("try", "paren"):
+            e = e["e"]
+        if isinstance(e, dict) and e.get("k") == "mcall" and e["method"] == "reset_peek":
+            return True
+        if isinstance(e, dict) and e.get("k") in ("assign", "let"):
+            r = e.get("r") if e.get("k") == "assign" else e.get("init")
+            return isinstance(r, dict) and r.get("k") == "mcall" and r["method"] == "next" and "iter" in expr_text(r["recv"])
+        return False
+
+    def _reset_follows(x, stop):
+        """inside `stop`: some block on the way up from x has a reset among the statements after the one holding x"""
+        q2 = x
+        while q2 is not None and q2 is not stop:
+            pq2, kq2, iq2 = par.get(id(q2), (None, None, None))
+            if pq2 is not None and pq2.get("k") == "block" and kq2 == "stmts" and any(_resets(y) for y in pq2["stmts"][iq2 + 1:]):
+                return True
+            q2 = pq2
+        return False
+
+    heads = 0
+    for i, p in enumerate(peeks):
+        # a continuation: lexically inside the consequence of another peek
+        q, cont = p, False
+        while q is not None:
+            pq, kq, iq = par.get(id(q), (None, None, None))
+            if pq is not None and pq.get("k") == "if" and kq == "then" and any(x in peeks for x in walk(pq["cond"])):
+                cont = True
+            q = pq
+        if cont:
+            continue
+        heads += 1
+        key = "T-OPT-PEEK:cursor:%d" % heads
+        bad = None
+        q = p
+        while q is not None and bad is None:
+            pq, kq, iq = par.get(id(q), (None, None, None))
+            if pq is not None and pq.get("k") == "block" and kq == "stmts":
+                stmts = pq["stmts"]
+                for j in range(iq - 1, -1, -1):
+                    if _resets(stmts[j]):
+                        break
+                    inner = [x for x in walk(stmts[j]) if x in peeks]
+                    if inner and not all(_reset_follows(x, stmts[j]) for x in inner):
+                        bad = stmts[j]
+                        break
+                else:
+                    q = pq
+                    continue
+                break
+            if pq is not None and pq.get("k") in ("loop", "while", "for"):
+                break
+            q = pq
+        res.inst(key, True, {"starts_a_look_ahead": True, "earlier_peek_without_reset": bad is not None})
+        if bad is not None:
+            res.fail("T-OPT-PEEK:cursor", facts.where(fn, p), "optimize(): this look-ahead starts with `peek()` although an earlier `peek()` of the same iteration (line %s) is not followed by reset_peek() / next(): it examines the line *after* the one it means, and deletes a load whose flags the branch in between needs" % str(bad.get("loc", "?")).split(":")[0])
     for i, p in enumerate(peeks):
         how = owners.get(id(p), "unbound")
         key = "T-OPT-PEEK:%d:%s" % (i, how)
